@@ -155,6 +155,28 @@ theorem b64_decode_encode (s : Bytes) : b64decode (b64encodeStr s) [] = some s :
     | zero => simp [List.eq_nil_of_length_eq_zero hm]
     | succ k => simp only [hraw]; rw [← hm]; simp
 
+/-- Form widget rendering (`src/form.cpp`): every item any render function writes to the output
+stream is a string literal, a number, an expression passed through `util::escape` /
+`filters::escape` — whose output is characterised by `escape_no_markup` / `unescape_escape` above —
+or one of the developer-chosen identifiers/attribute strings that are raw by design. In particular
+message, error message, help text, values and option ids/texts are never written raw. (A statement
+about the generated table of ALL stream insertions of form.cpp; the rendered output of real widgets
+is judged by `Spec.userTextEscaped` in the correspondence run.) -/
+theorem form_inserts_escaped :
+    ∀ i ∈ Gen.formInserts, i.2 = 0 ∨ i.2 = 1 ∨ i.2 = 2 ∨ (i.2 = 3 ∧ i.1 ∈ formRawAllowed) := by
+  decide +kernel
+
+/-- the model's escaper is the reference escaper the widget judge uses -/
+theorem escape_eq_refEscape (s : Bytes) : escape s = refEscape s := by
+  unfold escape refEscape
+  congr 1
+  funext c
+  rcases escapeByte_cases c with ⟨h, e⟩ | ⟨h, e⟩ | ⟨h, e⟩ | ⟨h, e⟩ | ⟨h, e⟩ | ⟨h1, h2, h3, h4, h5, e⟩
+  all_goals (rw [e]; subst_vars)
+  all_goals first
+    | rfl
+    | simp [h1, h2, h3, h4, h5]
+
 /-! ### Non-vacuity / sanity instances (tests of the statements' reading, not the theorems) -/
 
 example : escape [60, 97, 38, 34, 39, 62] =
